@@ -67,7 +67,8 @@ def _random_str(c):
 def _random_float(c):
     c.declare("self", "Random")
     a, b, p = c.sym("start"), c.sym("end"), c.sym("precision")
-    c.requires(z3.And(M.is_FloatV(a), M.is_FloatV(b), S.float_range(a), S.float_range(b)), "finite-floats")
+    rng = lambda t: z3.And(M.fval(t) <= M.DBL_MAX, M.fval(t) >= -M.DBL_MAX)
+    c.requires(z3.And(M.is_FloatV(a), M.is_FloatV(b), rng(a), rng(b)), "finite-floats")
     c.requires(M.fval(a) <= M.fval(b), "non-empty-range")
     c.requires(z3.Or(p == M.NilV, z3.And(M.is_intlike(p), 1 <= M.int_of(p), M.int_of(p) <= 15)), "precision")
     c.raises()
@@ -101,6 +102,7 @@ def gen_visit(cls: str):
         w0 = z3.Const("w_sat", Obj)
         c.requires(S.conforms_def(ct, cls, Sx, w0), "satisfiable")       # Skolem witness of `satisfiable(S)`
         c.requires(S.float_range(w0), "float-repr")
+        c.requires(S.float_range(Sx), "float-repr-schema")
         c.extra_inputs = {"w_sat": w0}
         if cls == "StrSchema":
             c.requires(z3.Implies(S.declared(Sx, "pattern"), regex_gen_ok(M.sval(S.prop(Sx, "pattern")))),
